@@ -38,7 +38,20 @@ func (v *Violation) String() string {
 }
 
 func V(key, clause, format string, a ...any) *Violation {
-	return &Violation{Key: key, Clause: clause, Msg: fmt.Sprintf(format, a...)}
+	msg := fmt.Sprintf(format, a...)
+	if len(msg) > 1800 {
+		msg = msg[:1800] + " …[clipped]"
+	}
+	if len(key) > 110 {
+		key = key[:110]
+	}
+	key = strings.Map(func(r rune) rune {
+		if r <= ' ' || r > '~' {
+			return '_'
+		}
+		return r
+	}, key)
+	return &Violation{Key: key, Clause: clause, Msg: msg}
 }
 
 // ---------------------------------------------------------------------------------------------
